@@ -1,1 +1,8 @@
 pub mod c17;
+pub mod tseq;
+
+/// replayers for families other than table sequences
+pub fn replay_other(v: &serde_json::Value) -> i32 {
+    println!("replay description: {}", serde_json::to_string_pretty(&v["replay"]).unwrap_or_default());
+    0
+}
